@@ -167,7 +167,32 @@ func (c *Ctx) factsWithCreation(b *ssa.BasicBlock) map[fact]bool {
 
 // factsAt returns the branch facts that hold on entry to block b.
 func (c *Ctx) factsAt(b *ssa.BasicBlock) map[fact]bool {
-	return c.guardsOf(b.Parent()).in[b]
+	base := c.guardsOf(b.Parent()).in[b]
+	if c.noExpand > 1 {
+		return base
+	}
+	if m, ok := c.expanded[b]; ok {
+		return m
+	}
+	if c.expanded == nil {
+		c.expanded = map[*ssa.BasicBlock]map[fact]bool{}
+	}
+	out := base
+	copied := false
+	for f := range base {
+		for _, tf := range c.helperImplied(f) {
+			if !copied {
+				out = make(map[fact]bool, len(base)+4)
+				for g := range base {
+					out[g] = true
+				}
+				copied = true
+			}
+			out[tf] = true
+		}
+	}
+	c.expanded[b] = out
+	return out
 }
 
 // ---------------------------------------------------------------------------
